@@ -5,7 +5,19 @@ ROOT = pathlib.Path(__file__).resolve().parents[1]
 REPO_HOOKS = ['fdf8ddb']
 
 # id -> dict(level, text, note, technique, design)   ; absent ids go to not_applicable with PENDING reason
+TB = ('Trusted: Lean 4.33 kernel; axioms propext/Classical.choice/Quot.sound only (audited each run); the translator harness/extract '
+      '(probe.py reads tables / rule behaviour off the running code, gen.py writes Ptx/Gen/*.lean); the documented tables Ptx/Sem/Spec.lean; '
+      'known_findings.json (committed, read-only).')
 CLAIMED = {
+ 'C04': dict(level='proof', technique='Lean 4 proof: rule tables regenerated from /repo, exactness on all abstract valuations by decide +kernel per logic, generic lift lemmas; frame closure vs proved Lean closure',
+   text='Per logic and rule row, exactness (node satisfied iff some extension is, with witness / for all points) is a finite statement over operand value pairs resp. value profiles; it is regenerated from the running code and evaluated by the Lean kernel for all 57 logics (rules_exact, rules_sound, rules_total, rules_local). Generic theorems (Ptx/Props/C04.lean) lift the forward half to arbitrary sentences, structures, domain sizes and frames; frame-rule closure is compared with a Lean closure function proved to be the least relation with the frame property.',
+   note=TB + ' Assumes rules are uniform in their operands (templates are abstracted from probes with atomic operands; validated by whole-proof replay in C01). The backward half of the generic lift and the quantifier-rule lift are not yet proved (the abstract iff is checked in full).'),
+ 'C05': dict(level='proof', technique='Lean 4 proof: closure and read tables regenerated from /repo, exactness by decide +kernel per logic, generic lift (closing_unsat)',
+   text='Closure behaviour on every subset of literal constraints and the value read by the model builder are regenerated from real branches for every logic; the kernel evaluates closes <-> unsatisfiable and read-value-satisfies for all rows; generic theorems lift this to branches of arbitrary sentences in arbitrary structures, and prove ~a=a / ~E!a unsatisfiable in classical structures.',
+   note=TB + ' Assumes closure is local to one sentence at one world (validated by the extractor on atom vs predication and cross-world pairs).'),
+ 'C07': dict(level='proof', technique='Lean 4 proof: complete truth-table graphs regenerated from /repo compared row by row with hand-transcribed documented tables by decide +kernel',
+   text='The domain is finite (<=16 rows x 10 operators, <=15 value sets x 4 folds per logic) and enumerated completely: every row of every logic is extracted from the running truth functions / evaluator and compared by kernel evaluation with Ptx/Sem/Spec.lean; definitional identities and extension-has-base-tables are separate kernel-checked theorems on the code tables.',
+   note=TB + ' The oracle is a hand transcription of the doc prose and cited literature (Spec.lean), short and meant to be read.'),
 }
 PENDING = 'check not built yet in this round (planned: Lean 4 proof + correspondence, see DESIGN.md section 6)'
 NOT_APPLICABLE = {}
